@@ -532,6 +532,24 @@ pub fn run(a: &Args, rep: &mut Reporter) {
         }
         let judge = if mode == "c10" { Judge::Hostile } else { Judge::Conforming };
         let dev = Dev::empty();
+        // one program in eight runs over a device that shortens every transfer (reads during page
+        // reloads and writes): content and file must not depend on it
+        let chunked = idx % 8 == 5;
+        if chunked {
+            use crate::dev::Chunking;
+            let rc = match r.usize(3) {
+                0 => Chunking::One,
+                1 => Chunking::Small(1 + r.usize(600)),
+                _ => Chunking::Rand(Rng::new(r.u64())),
+            };
+            let wc = match r.usize(3) {
+                0 => Chunking::Alt(false),
+                1 => Chunking::Small(1 + r.usize(1500)),
+                _ => Chunking::Rand(Rng::new(r.u64())),
+            };
+            dev.set_chunking(rc, wc);
+            cover.hit("device:short-transfers");
+        }
         let run = run_scene(&scene, dev.clone(), judge);
         rep.stat("programs", 1);
         rep.stat("writer_calls", run.calls.len() as u64);
